@@ -118,6 +118,14 @@ class Ref(object):
                 raise _Exc(["raise", tid, st["sid"]])
             elif op == "result":
                 raise _Result()
+            elif op == "itemvalue":
+                o = self.struct(st["item"], scope)
+                if o[0] == "ok":
+                    got.append(["ival", o[1]])
+                elif st["catch"]:
+                    got.append(["ivalexc", o[1]])
+                else:
+                    raise _Exc(o[1])
             elif op == "probe":
                 got.append(["probe", self.probe_value])
             elif op == "cancel":
